@@ -139,6 +139,24 @@ def run_bounded(chk):
                 acc = False
             if acc != ok:
                 fails.append((f"Polygon:{nm}/{R_name}", {"vertices": P, "should_accept": ok, "accepted": acc}))
+    # planarity must be judged relative to the polygon's size: a vertex lifted by 3% of the size is rejected at every scale,
+    # the planar polygon is accepted at every scale (offsets up to ~3 sizes)
+    quad = [[0.0, 0, 0], [3, 0.2, 0], [2.6, 1.9, 0], [0.3, 2.2, 0]]
+    bent = [p[:] for p in quad]
+    bent[2][2] = 0.1
+    for sc in (1e-5, 1e-4, 1e-3, 1.0, 1e3):
+        for R_name, R, t in corpus.placements()[2:]:
+            for nm, pts, ok in (("planar quad", quad, True), ("vertex lifted by 3% of the size", bent, False)):
+                for klass in ("Polygon", "ConvexPolygon"):
+                    n_eval += 1
+                    P = corpus.place([[c_ * sc for c_ in p] for p in pts], R, [x * sc / 4 for x in t])
+                    try:
+                        getattr(sh, klass)(P)
+                        acc = True
+                    except ValueError:
+                        acc = False
+                    if acc != ok:
+                        fails.append((f"{klass}:{nm}/scale={sc:g}/{R_name}", {"vertices": P, "should_accept": ok, "accepted": acc}))
     # convex position, all vertex orders, counter-clockwise result
     convex_sets = [[(0, 0), (2, 0), (2, 1), (0, 2)], [(0, 0), (3, 0), (4, 2), (2, 4), (0, 3)], [(0, 0), (4, 0), (1, 3)]]
     for pts in convex_sets:
